@@ -64,6 +64,19 @@ CHECKS = {
             TRUST + "; assumptions A1 (torch API table), A2 (caller closures do not leak retained storage), A3 (no "
             "further reflection), A4 (Function.apply returns new objects), A5 (annotation / usage based typing), A6.",
             "DESIGN.md section 2 (E1) and section 3, C13"),
+    "C19": (True,
+            "taint analysis over a statement-level CFG with dominators (networkx), correlated-branch pruning and "
+            "one-level callee validation summaries",
+            "Partial, structural: for every definition of the contraction entry points (matmul, rmatmul, solve, "
+            "solve_triangular, sqrt_inv_matmul, inv_quad, inv_quad_logdet; ~40 definitions x operands) the operand may "
+            "reach an elementwise arithmetic use or the return value only when dominated by a shape guard on that "
+            "operand (_matmul_broadcast_shape, an explicit shape comparison that raises, or delegation to a checked "
+            "contraction with self). This is a necessary condition of 'incompatible shapes raise instead of "
+            "broadcasting' and is decided for all operand shapes at once. NOT decided: out-of-range indices, "
+            "non-square operators, shape arithmetic of +/* where broadcasting is the specification, results built "
+            "from the operand's shape only.",
+            TRUST + "; torch contraction kernels raise on incompatible operands; contraction methods of self-derived "
+            "objects validate their operand.", "DESIGN.md section 3, C19"),
 }
 
 NOT_APPLICABLE = {
